@@ -97,7 +97,7 @@ def contracts():
         final(w).net.posts == old(w).net.posts,
 """)
     c["post"] = FnSpec(ret="r", ghost=True, sig="    requires" + NET_PRE + DB_PRE + "    ensures" + NET_POST + """
-        final(w).net.posts <= old(w).net.posts + 10, //@C08.at_most_10_transmissions
+        final(w).net.posts <= old(w).net.posts + 10, //@C08.at_most_10_transmissions,C07.every_request_is_given_up_after_a_bounded_number_of_transmissions
         r is Ok ==> final(w).net.last_success && final(w).net.posts > old(w).net.posts, //@C08.ok_is_2xx
         r matches Ok(v) ==> v.body@ == final(w).net.last_body, //@C02.body_is_response_body
 """, loops={1: "    invariant" + LOOP_NET_INV + DB_PRE + """
@@ -114,15 +114,11 @@ def contracts():
             assert(exists|n: &str| n@ == n_view && #[trigger] data_builder.ensures((n, url), Ok(body))); //@C04.body_built_from_stored_nonce_and_url,C08.retransmission_rebuilt_with_newest_nonce
             w.net.built = Some((n_view, url@, body@));
         }"""),
-          ("before_stmt", "acme_err.is_recoverable", 1, """
-                proof {
-                    assert(json_spec::<HttpApiError>(w.net.last_body) == Some(api_err));
-                }"""),
           ])
     c["post_jose"] = FnSpec(ret="r", ghost=True, sig=c["post"].sig)
     # polling (macro-expanded)
     pool_sig = "    requires" + NET_PRE + DB_PRE + "        forall|o| break_fn.requires((o,)),\n    ensures" + NET_POST + """
-        final(w).net.posts <= old(w).net.posts + 20 * 10, //@C08.at_most_20_polls
+        final(w).net.posts <= old(w).net.posts + 20 * 10, //@C08.at_most_20_polls,C07.every_poll_is_given_up_after_a_bounded_number_of_requests
         r matches Ok(obj) ==> break_fn.ensures((&obj,), true), //@C08.poll_ok_means_condition_met
 """
     pool_loop = {1: "    invariant" + LOOP_NET_INV + DB_PRE + """
@@ -205,14 +201,14 @@ def build():
     u.verify(H, "get_client", "http", props=["C18"], fns={"get_client": c["get_client"]})
     u.verify(H, "new_nonce", "http", props=["C09", "C04", "C18"], fns={"new_nonce": c["new_nonce"]})
     u.verify(H, "get", "http", props=["C09", "C04", "C18", "C08"], fns={"get": c["get"]})
-    u.verify(H, "post", "http", props=["C09", "C04", "C18", "C08"], fns={"post": c["post"]})
+    u.verify(H, "post", "http", props=["C09", "C04", "C18", "C08", "C07"], fns={"post": c["post"]})
     u.verify(H, "post_jose", "http", props=["C09", "C04", "C18", "C08"], fns={"post_jose": c["post_jose"]})
     # --- acme_proto::http : polling (macro-expanded) and the thin wrappers
     u.macro(PH, "pool_object")
     u.module("acme_proto::http", "use crate::*;\nuse crate::acme_proto::structs::*;\nuse crate::endpoint::Endpoint;\n"
              "use crate::http;\nuse crate::http::*;\nuse crate::acme_common::error::Error;\nuse std::{thread, time};")
-    u.verify(PH, "pool_authorization", "acme_proto::http", props=["C08", "C09", "C04", "C18"], fns={"pool_authorization": c["pool_authorization"]})
-    u.verify(PH, "pool_order", "acme_proto::http", props=["C08", "C09", "C04", "C18"], fns={"pool_order": c["pool_order"]})
+    u.verify(PH, "pool_authorization", "acme_proto::http", props=["C08", "C09", "C04", "C18", "C07"], fns={"pool_authorization": c["pool_authorization"]})
+    u.verify(PH, "pool_order", "acme_proto::http", props=["C08", "C09", "C04", "C18", "C07"], fns={"pool_order": c["pool_order"]})
     u.verify(PH, "get_certificate", "acme_proto::http", props=["C02", "C09", "C04", "C18"], fns={"get_certificate": c["get_certificate"]})
     simple = "    requires" + NET_PRE + DB_PRE + "    ensures" + NET_POST + "        final(w).net.posts <= old(w).net.posts + 10,\n"
     for name in ["post_jose_no_response", "new_account", "new_order", "get_authorization", "finalize_order"]:
